@@ -3,7 +3,7 @@
    current state (pairwise distinct real units of the state, no all-empty tuple) - which the harness checks per iteration through C01's judge.
    Proofs in theories/Fast/Proofs.v. *)
 From Coq Require Import List Arith ZArith Bool Permutation.
-From PGA Require Import Fast.Model Fast.Proofs.
+From PGA Require Import Fast.Model Fast.Proofs Fast.FastFull.
 Import ListNotations.
 Local Open Scope Z_scope.
 
@@ -47,6 +47,21 @@ Proof. exact (chosen_incl repaired al xl). Qed.
 Theorem C10_full_window_takes_everything repaired al xl :
   (forall t, In t al -> ble (tbound t) (Some xl) = true) -> Permutation (chosen repaired al xl) al.
 Proof. exact (chosen_all repaired al xl). Qed.
+
+(* FULL (window covering the continuum): when w * (number of annotators) >= number of units, the window is the whole state and its limit is at
+   least every end, so ONE step takes the whole alignment the oracle returns and empties the continuum: the fast alignment IS the window's best
+   alignment, i.e. the best alignment of the continuum *)
+Theorem C10_full_window_is_everything dtab thr w st win xl :
+  (total_units st <= w * length st)%nat -> first_window dtab thr w st = (win, xl) ->
+  Permutation (map fid win) (ids_of st) /\ (forall u, In u win -> fe u <= xl).
+Proof. exact (first_window_full dtab thr w st win xl). Qed.
+Theorem C10_full_window_one_step repaired dtab thr w st al ch st' :
+  (total_units st <= w * length st)%nat -> NoDup (ids_of st) -> acceptable st al ->
+  (forall i, In i (ids_of st) -> In i (al_ids al)) ->
+  (forall t u, In t al -> In (Some u) t -> exists l, In l st /\ In u l) ->
+  fast_step repaired dtab thr w st al = (ch, st') ->
+  Permutation ch al /\ total_units st' = 0%nat.
+Proof. exact (fast_step_full_window repaired dtab thr w st al ch st'). Qed.
 
 Example C10_example :
   (* the probing witness scaled by 10: a: [0,10] [20,30]; b: [0,500] [21,31]; window size 1 *)
